@@ -7,6 +7,7 @@ import (
 	"fmt"
 	"sort"
 	"strings"
+	"time"
 
 	"github.com/aml-org/amf-custom-validator/pkg"
 	"github.com/aml-org/amf-custom-validator/pkg/events"
@@ -253,6 +254,10 @@ type c11Obs struct {
 }
 
 // c11Call runs one library call with a fresh channel of the given capacity and consumer.
+// c11Slow makes the collector pause after every event it takes (a slow consumer). With a correct (blocking) producer
+// this only slows the run down; it can never change what is delivered.
+var c11Slow = false
+
 func c11Call(capacity int, useMilestones bool, call func(ch *chan events.Event) CallRes) c11Obs {
 	var o c11Obs
 	ch := make(chan events.Event, capacity)
@@ -282,6 +287,9 @@ func c11Call(capacity int, useMilestones bool, call func(ch *chan events.Event) 
 		go func() {
 			for e := range ch {
 				o.evs = append(o.evs, e)
+				if c11Slow {
+					time.Sleep(2 * time.Millisecond)
+				}
 			}
 			close(done)
 		}()
@@ -406,8 +414,21 @@ func c11Run(c *Ctx, cs c11Case) {
 		}
 	}
 	profileFault := f.stage == "ProfileParsing" || f.stage == "RegoGeneration" || f.stage == "RegoCompilation"
+	type cc struct {
+		capacity int
+		um, slow bool
+	}
+	var confs []cc
 	for _, capacity := range []int{0, 1, 64} {
 		for _, um := range []bool{false, true} {
+			confs = append(confs, cc{capacity, um, false})
+		}
+	}
+	confs = append(confs, cc{1, false, true}, cc{2, false, true}, cc{5, false, true})
+	for _, cf := range confs {
+		{
+			capacity, um := cf.capacity, cf.um
+			c11Slow = cf.slow
 			c.Nontrivial(fmt.Sprintf("%s/%s/%d/%v", cs.Flow, cs.Fault, capacity, um))
 			switch cs.Flow {
 			case "Validate", "ValidateWithConfiguration":
